@@ -80,7 +80,10 @@ def mon_roundtrip(case):
     payload, idcaller, posted, cur = {}, {}, {}, None
     slowposted = {}
     started, rt_deadline = {}, {}
+    direct = set()      # callers on the direct-invoke reply path are judged by mon_direct
     for i, (ws, obs, side) in enumerate(case["steps"]):
+        if ws[0] == "dinvoke":
+            direct.add(ws[1])
         for x in side:
             m = re.match(r"caller(\d+) start \S+ @(\d+)", x)
             if m:
@@ -120,7 +123,7 @@ def mon_roundtrip(case):
             if idref and e.startswith("rt.error=202"):
                 posted[idref] = "errjson:" + ws[3]
             m = re.match(r"caller(\d+) done err=ok body=(\S+)", e)
-            if m:
+            if m and m.group(1) not in direct:
                 c, body = m.groups()
                 ids = [k for k, v in idcaller.items() if v == c]
                 want = [posted[k] for k in ids if k in posted] + [b for k in ids for b in slowposted.get(k, [])]
@@ -235,6 +238,33 @@ def mon_refusal_inert(case):
             if a1.startswith("400,InvalidRequestID") and a2.startswith("403") and target == cur:
                 tag = "@C02:refused-after-platform-error@ "
             out.append(tag + f"step {i+1}: the submission for {target} was refused with {a1}; repeated at once it was answered {a2}: the refusal changed the runtime's protocol state")
+    return out
+
+
+def mon_direct(case):
+    """C02/C17 on the interop server's direct-invoke reply path: the caller's stream holds exactly what the
+    runtime posted (Complete), a prefix of it (Truncated; Oversized: limit + 1 bytes), or an error document
+    alone — never a mixture, and the trailer says which."""
+    out = []
+    limit = {}
+    for i, (ws, obs, side) in enumerate(case["steps"]):
+        if ws[0] == "dinvoke":
+            limit[ws[1]] = int(next((w[4:] for w in ws if w.startswith("max=")), str(6 * 2 ** 20 + 100)))
+        for e in entries(obs):
+            m = re.match(r"caller(\d+) done err=(\S+) body=(\S+) eor=(\S+)", e)
+            if not m:
+                continue
+            c, err, body, eor = m.groups()
+            if body.startswith("mixed:"):
+                out.append(f"step {i+1}: direct caller {c} received {body[6:]} bytes that are neither a payload the runtime posted, nor a prefix of one, nor an error document alone (trailer {eor}, outcome {err})")
+            elif body.startswith("bytes:") and eor != "Complete":
+                out.append(f"step {i+1}: direct caller {c} received a complete payload but the trailer says {eor}")
+            elif body.startswith("prefix:"):
+                n = int(body[7:].split("/")[0])
+                if eor not in ("Truncated", "Oversized"):
+                    out.append(f"step {i+1}: direct caller {c} received only the first {n} bytes of the response but the trailer says {eor}")
+                if eor == "Oversized" and n != limit.get(c, -1) + 1:
+                    out.append(f"step {i+1}: direct caller {c}: oversized response cut at {n} bytes, the limit of the request was {limit.get(c)}")
     return out
 
 
